@@ -301,7 +301,9 @@ def Node.onCreated (c : Cfg) (s : Node) (id ident : Nat) (ok : Bool) (next : Opt
     let s := { s with createReq := s.createReq.filter (fun q => !(q.1 == ident)) }
     match s.exits.get rq.fromId with
     | none => s
-    | some _ =>
+    | some x =>
+      -- the id may have been handed to another peer / the id reserved for the next hop may have been taken meanwhile
+      if !(x.peer == rq.peer) || s.known rq.toId then s else
       let bw : Entry := { last := s.now, born := s.now, other := rq.fromId, peer := rq.peer, early := Gen.earlyInit }
       let fw : Entry := { last := s.now, born := s.now, other := rq.toId, peer := rq.toPeer, early := Gen.earlyInit }
       { s with
